@@ -1,2 +1,131 @@
-(* Properties/C03.v — statements only (placeholder while Proofs/Writer*.v are being built). *)
-From XV Require Import Base.Str Spec.XmlNs Model.Writer Model.WriterCorr.
+(* Properties/C03.v — statements only.  C03, writer half: from writer events to the
+   document, for XmlEventWriter (XMLGenerator sink) and LxmlEventWriter (lxml sink). *)
+From Coq Require Import NArith List Bool.
+From XV Require Import Base.Str Spec.XmlNs Model.Writer Proofs.WriterRefute Proofs.WriterEscape.
+Import ListNotations.
+Open Scope N_scope.
+
+(* ---- hostile text: what the XML parser reads from the escaped text is the value *)
+Theorem C03_hostile_text_safe_data : forall s,
+  forallb is_xml_char s = true -> mem 13 s = false -> text_value (sax_escape s) = Some s.
+Proof. exact hostile_text_safe_data. Qed.
+Print Assumptions C03_hostile_text_safe_data.
+
+Theorem C03_hostile_text_safe_attr : forall s,
+  forallb is_xml_char s = true -> attr_value (sax_quoteattr s) = Some s.
+Proof. exact hostile_text_safe_attr. Qed.
+Print Assumptions C03_hostile_text_safe_attr.
+
+Theorem C03_hostile_text_cr_refuted :
+  exists s, forallb is_xml_char s = true /\ text_value (sax_escape s) <> Some s.
+Proof. exact hostile_text_cr_refuted. Qed.
+Print Assumptions C03_hostile_text_cr_refuted.
+
+(* ---- the unguarded statement is false of the faithful model; one witness per guard clause *)
+Theorem C03_native_sound_unguarded_refuted : ~ (forall cfg user evs, native_sound_b cfg user evs = true).
+Proof. exact native_sound_unguarded_refuted. Qed.
+Print Assumptions C03_native_sound_unguarded_refuted.
+
+Theorem C03_lxml_sound_unguarded_refuted : ~ (forall cfg user evs, lxml_sound_b cfg user evs = true).
+Proof. exact lxml_sound_unguarded_refuted. Qed.
+Print Assumptions C03_lxml_sound_unguarded_refuted.
+
+Theorem C03_user_prefix_xml_refuted :
+  clause_vector default_config w_user_prefix_xml_user w_user_prefix_xml_evs
+  = [false; false; true; true; true; true; true; true; true; true; true]
+  /\ native_sound_b default_config w_user_prefix_xml_user w_user_prefix_xml_evs = false.
+Proof. exact user_prefix_xml_refuted. Qed.
+Print Assumptions C03_user_prefix_xml_refuted.
+
+Theorem C03_user_prefix_invalid_refuted :
+  only_clause_fails 0 (clause_vector default_config w_user_prefix_invalid_user w_user_prefix_xml_evs) = true
+  /\ native_sound_b default_config w_user_prefix_invalid_user w_user_prefix_xml_evs = false.
+Proof. exact user_prefix_invalid_refuted. Qed.
+Print Assumptions C03_user_prefix_invalid_refuted.
+
+Theorem C03_prefix_collision_refuted :
+  only_clause_fails 1 (clause_vector default_config w_prefix_collision_user w_prefix_collision_evs) = true
+  /\ native_sound_b default_config w_prefix_collision_user w_prefix_collision_evs = false.
+Proof. exact prefix_collision_refuted. Qed.
+Print Assumptions C03_prefix_collision_refuted.
+
+Theorem C03_std_prefix_collision_refuted :
+  only_clause_fails 1 (clause_vector default_config w_std_prefix_collision_user w_std_prefix_collision_evs) = true
+  /\ native_sound_b default_config w_std_prefix_collision_user w_std_prefix_collision_evs = false.
+Proof. exact std_prefix_collision_refuted. Qed.
+Print Assumptions C03_std_prefix_collision_refuted.
+
+Theorem C03_default_ns_attribute_refuted :
+  only_clause_fails 2 (clause_vector default_config w_default_ns_attribute_user w_default_ns_attribute_evs) = true
+  /\ native_sound_b default_config w_default_ns_attribute_user w_default_ns_attribute_evs = false.
+Proof. exact default_ns_attribute_refuted. Qed.
+Print Assumptions C03_default_ns_attribute_refuted.
+
+Theorem C03_default_ns_qname_reset_refuted :
+  only_clause_fails 3 (clause_vector default_config w_default_ns_qname_reset_user w_default_ns_qname_reset_evs) = true
+  /\ native_sound_b default_config w_default_ns_qname_reset_user w_default_ns_qname_reset_evs = false
+  /\ lxml_sound_b default_config w_default_ns_qname_reset_user w_default_ns_qname_reset_evs = false.
+Proof. exact default_ns_qname_reset_refuted. Qed.
+Print Assumptions C03_default_ns_qname_reset_refuted.
+
+Theorem C03_hostile_uri_refuted :
+  only_clause_fails 4 (clause_vector default_config w_hostile_uri_user w_hostile_uri_evs) = true
+  /\ native_sound_b default_config w_hostile_uri_user w_hostile_uri_evs = false.
+Proof. exact hostile_uri_refuted. Qed.
+Print Assumptions C03_hostile_uri_refuted.
+
+Theorem C03_bad_name_refuted :
+  only_clause_fails 4 (clause_vector default_config w_bad_name_user w_bad_name_evs) = true
+  /\ native_sound_b default_config w_bad_name_user w_bad_name_evs = false.
+Proof. exact bad_name_refuted. Qed.
+Print Assumptions C03_bad_name_refuted.
+
+Theorem C03_non_xml_char_refuted :
+  only_clause_fails 5 (clause_vector default_config w_non_xml_char_user w_non_xml_char_evs) = true
+  /\ native_sound_b default_config w_non_xml_char_user w_non_xml_char_evs = false.
+Proof. exact non_xml_char_refuted. Qed.
+Print Assumptions C03_non_xml_char_refuted.
+
+Theorem C03_cr_in_text_refuted :
+  only_clause_fails 6 (clause_vector default_config w_cr_in_text_user w_cr_in_text_evs) = true
+  /\ native_sound_b default_config w_cr_in_text_user w_cr_in_text_evs = false.
+Proof. exact cr_in_text_refuted. Qed.
+Print Assumptions C03_cr_in_text_refuted.
+
+Theorem C03_adjacent_data_refuted :
+  only_clause_fails 7 (clause_vector default_config w_adjacent_data_user w_adjacent_data_evs) = true
+  /\ native_sound_b default_config w_adjacent_data_user w_adjacent_data_evs = false
+  /\ lxml_sound_b default_config w_adjacent_data_user w_adjacent_data_evs = false.
+Proof. exact adjacent_data_refuted. Qed.
+Print Assumptions C03_adjacent_data_refuted.
+
+Theorem C03_late_qname_data_refuted :
+  only_clause_fails 8 (clause_vector default_config w_late_qname_data_user w_late_qname_data_evs) = true
+  /\ native_sound_b default_config w_late_qname_data_user w_late_qname_data_evs = false
+  /\ lxml_sound_b default_config w_late_qname_data_user w_late_qname_data_evs = false.
+Proof. exact late_qname_data_refuted. Qed.
+Print Assumptions C03_late_qname_data_refuted.
+
+Theorem C03_nil_kept_with_content_refuted :
+  only_clause_fails 9 (clause_vector default_config w_nil_kept_with_content_user w_nil_kept_with_content_evs) = true
+  /\ native_sound_b default_config w_nil_kept_with_content_user w_nil_kept_with_content_evs = false
+  /\ lxml_sound_b default_config w_nil_kept_with_content_user w_nil_kept_with_content_evs = false.
+Proof. exact nil_kept_with_content_refuted. Qed.
+Print Assumptions C03_nil_kept_with_content_refuted.
+
+Theorem C03_clark_datatype_text_refuted :
+  only_clause_fails 10 (clause_vector default_config w_clark_datatype_text_user w_clark_datatype_text_evs) = true
+  /\ native_sound_b default_config w_clark_datatype_text_user w_clark_datatype_text_evs = false
+  /\ lxml_sound_b default_config w_clark_datatype_text_user w_clark_datatype_text_evs = false.
+Proof. exact clark_datatype_text_refuted. Qed.
+Print Assumptions C03_clark_datatype_text_refuted.
+
+(* ---- the guard is satisfiable by a non-trivial input, on which both writers are right *)
+Example C03_guard_non_vacuous :
+  writer_guard w_rich_cfg w_rich_user w_rich_evs = true
+  /\ lxml_domain w_rich_cfg w_rich_user w_rich_evs = true
+  /\ native_sound_b w_rich_cfg w_rich_user w_rich_evs = true
+  /\ lxml_sound_b w_rich_cfg w_rich_user w_rich_evs = true
+  /\ (exists d, run_native w_rich_cfg w_rich_user w_rich_evs = inl d).
+Proof. exact guard_non_vacuous. Qed.
+Print Assumptions C03_guard_non_vacuous.
